@@ -83,7 +83,7 @@ func seqCases(tier string) int {
 
 func seqFloors(tier string) map[string]int64 {
 	return scaleFloors(map[string]int64{
-		"commits_self": 500, "commits_foreign": 300, "commits_foreign_empty": 45, "commits_with_drop_time_zero": 70,
+		"commits_self": 500, "commits_foreign": 300, "commits_foreign_empty": 45, "commits_with_drop_time_zero": 70, "submissions_injected_at_commit_lock_point_admitted": 150,
 		"probes_nonempty": 550, "probe_txs_executed": 1400, "reaps_checked": 1800, "partial_reaps": 390,
 		"nonce_positions_checked": 10000, "key_images_checked": 2800, "promotion_checks": 6500, "promoted": 200,
 		"snapshots_evaluated": 4000, "snapshots_with_full_good_list": 580, "dropped_at_commit/good": 200, "dropped_at_commit/utxo": 45,
